@@ -11,7 +11,7 @@ from concurrent.futures import ThreadPoolExecutor
 from pathlib import Path
 
 VERIF = Path(__file__).resolve().parent.parent
-COQ = VERIF / 'coq'
+COQ = Path(os.environ.get('VERIF_COQ', str(VERIF / 'coq')))
 REPO = Path(os.environ.get('VERIF_REPO', '/repo'))
 COQ_ARGS = ['-Q', str(COQ / 'theories'), 'EAS', '-Q', str(COQ / 'gen'), 'EASGen', '-Q', str(COQ / 'props'), 'EASProps',
             '-w', '-notation-overridden,-deprecated-hint-without-locality,-deprecated-syntactic-definition']
